@@ -5,7 +5,8 @@
    sc_merge_bitonic and sc_psort_bitonic (n / 2, !dir).  Counts and positions are below 2^62, ranks below 2^31.
    An edit of that arithmetic in sc_sort.c changes a generated definition and one of these lemmas stops checking. *)
 From Coq Require Import Arith ZArith Lia List Bool PeanoNat.
-From ScV Require Import Base.CInt Gen.PsortC05 C05.PsortModel.
+From ScV Require Import Base.CInt Gen.PsortC05 C05.PsortModel C05.PsortIntCmp.
+From Coq Require Import Permutation Sorted.
 Import ListNotations.
 Local Open Scope Z_scope.
 
@@ -302,3 +303,65 @@ Proof.
   assert (E : b2z (negb (z2b (b2z dir))) = b2z (negb dir)) by (destruct dir; reflexivity).
   rewrite E. tup; lia.
 Qed.
+
+(* ---------- the local sort: what sc_psort_bitonic hands to qsort / qsort_r ---------------------------------------------------------- *)
+(* the comparison function chosen by `dir ? sc_compare_r : sc_icompare_r` (GNU and BSD qsort_r; the thunk is ignored) and by
+   `dir ? sc_compare : sc_icompare` (plain qsort, static pointer) is the user's function for dir != 0 and the user's function with
+   the ARGUMENTS SWAPPED for dir == 0 - for every function `compar : Z -> Z -> Z`, i.e. for every integer it returns (INT_MIN
+   included): the model's dir_cmp.  All three preprocessor variants are generated from the working tree on every run. *)
+Lemma gen_compare_gnu compar (dir : bool) e1 e2 thunk : psort_local_cmp_gnu compar (b2z dir) e1 e2 thunk = dir_cmp Z compar dir e1 e2.
+Proof. destruct dir; reflexivity. Qed.
+Lemma gen_compare_bsd compar (dir : bool) e1 e2 thunk : psort_local_cmp_bsd compar (b2z dir) e1 e2 thunk = dir_cmp Z compar dir e1 e2.
+Proof. destruct dir; reflexivity. Qed.
+Lemma gen_compare_plain compar (dir : bool) e1 e2 thunk : psort_local_cmp_plain compar (b2z dir) e1 e2 thunk = dir_cmp Z compar dir e1 e2.
+Proof. destruct dir; reflexivity. Qed.
+(* `dir` is an int in C: every non-zero value selects the ascending function *)
+Lemma gen_compare_any_dir compar dir e1 e2 thunk :
+  psort_local_cmp_gnu compar dir e1 e2 thunk = dir_cmp Z compar (z2b dir) e1 e2 /\
+  psort_local_cmp_bsd compar dir e1 e2 thunk = dir_cmp Z compar (z2b dir) e1 e2 /\
+  psort_local_cmp_plain compar dir e1 e2 thunk = dir_cmp Z compar (z2b dir) e1 e2.
+Proof. unfold psort_local_cmp_gnu, psort_local_cmp_bsd, psort_local_cmp_plain, dir_cmp. destruct (z2b dir); repeat split; reflexivity. Qed.
+
+(* base, number and size of the elements of the local sort: the model's `lsort dir (lo - my_lo) n` (sort_prog) *)
+Lemma gen_local_sort_args lo my_lo n size : (my_lo <= lo)%nat -> zn lo < B62 -> 0 <= size -> zn (lo - my_lo) * size < B62 ->
+  psort_local_start_gnu (zn lo) (zn my_lo) size = zn (lo - my_lo) * size /\ psort_local_n_gnu n = n /\ psort_local_size_gnu size = size /\
+  psort_local_start_bsd (zn lo) (zn my_lo) size = zn (lo - my_lo) * size /\ psort_local_n_bsd n = n /\ psort_local_size_bsd size = size /\
+  psort_local_start_plain (zn lo) (zn my_lo) size = zn (lo - my_lo) * size /\ psort_local_n_plain n = n /\ psort_local_size_plain size = size.
+Proof.
+  intros H B1 Hs B2. unfold psort_local_start_gnu, psort_local_start_bsd, psort_local_start_plain.
+  rewrite (u64_sm (zn lo - zn my_lo)) by (unfold B62 in *; lia).
+  replace (zn lo - zn my_lo) with (zn (lo - my_lo)) by lia.
+  rewrite u64_sm by (unfold B62 in *; nia). repeat split; reflexivity.
+Qed.
+
+(* composition with the contract of libc's qsort: with the GENERATED comparison functions handed to a qsort that fulfils the
+   contract of the C standard, and a consistent user function `compar` over the element addresses with ARBITRARY integer
+   results, the network of sc_psort sorts, permutes and keeps the counts (elements are identified by their addresses) *)
+Section GenSorted.
+  Variable compar : Z -> Z -> Z.
+  Hypothesis compar_valid : cmp_valid Z compar.
+  Variable qs : (Z -> Z -> Z) -> list Z -> list Z.
+  Hypothesis qs_ok : qsort_contract Z qs.
+  Variable thunk : Z.                                         (* the pointer `pst` passed through qsort_r *)
+
+  Definition gen_sort_gnu (d : bool) (l : list Z) := qs (fun e1 e2 => psort_local_cmp_gnu compar (b2z d) e1 e2 thunk) l.
+  Definition gen_sort_bsd (d : bool) (l : list Z) := qs (fun e1 e2 => psort_local_cmp_bsd compar (b2z d) e1 e2 thunk) l.
+  Definition gen_sort_plain (d : bool) (l : list Z) := qs (fun e1 e2 => psort_local_cmp_plain compar (b2z d) e1 e2 thunk) l.
+
+  Definition sorted_perm_counts (sort : bool -> list Z -> list Z) (counts : list nat) (xs : list (list Z)) : Prop :=
+    StronglySorted (fun a b => compar a b <= 0) (concat (psort Z (gt_cmp Z compar) sort counts xs)) /\
+  Permutation (concat (psort Z (gt_cmp Z compar) sort counts xs)) (concat xs) /\
+  map (@length Z) (psort Z (gt_cmp Z compar) sort counts xs) = counts.
+
+  Theorem gen_sorted counts xs : map (@length Z) xs = counts ->
+    sorted_perm_counts gen_sort_gnu counts xs /\ sorted_perm_counts gen_sort_bsd counts xs /\ sorted_perm_counts gen_sort_plain counts xs.
+  Proof.
+    intros H. split; [|split].
+    - apply (psort_correct_int Z compar compar_valid qs qs_ok (fun d e1 e2 => psort_local_cmp_gnu compar (b2z d) e1 e2 thunk)
+               (fun d a b => f_equal Z.sgn (gen_compare_gnu compar d a b thunk)) counts xs H).
+    - apply (psort_correct_int Z compar compar_valid qs qs_ok (fun d e1 e2 => psort_local_cmp_bsd compar (b2z d) e1 e2 thunk)
+               (fun d a b => f_equal Z.sgn (gen_compare_bsd compar d a b thunk)) counts xs H).
+    - apply (psort_correct_int Z compar compar_valid qs qs_ok (fun d e1 e2 => psort_local_cmp_plain compar (b2z d) e1 e2 thunk)
+               (fun d a b => f_equal Z.sgn (gen_compare_plain compar d a b thunk)) counts xs H).
+  Qed.
+End GenSorted.
